@@ -153,31 +153,38 @@ impl Stream for RtrListener {
         ctx: &mut Context<'_>,
     ) -> Poll<Option<Self::Item>> {
         let this = self.project();
-        if let Some(backoff) = this.backoff.as_mut() {
-            if matches!(backoff.as_mut().poll(ctx), Poll::Pending) {
-                return Poll::Pending;
-            }
-            *this.backoff = None;
-        }
-        match this.tcp.poll_accept(ctx) {
-            Poll::Ready(Ok((sock, addr))) => {
-                match RtrStream::new(
-                    sock, addr,
-                    this.tls.as_ref(), *this.keepalive,
-                    this.server_metrics,
-                ) {
-                    Ok(stream) => Poll::Ready(Some(Ok(stream))),
-                    Err(_) => Poll::Pending,
+        // We need to loop here: whenever we return `Poll::Pending`, someone
+        // needs to have been asked to wake us up again. So, if we run into
+        // an error, we have to try again until either the backoff or the
+        // listener are pending.
+        loop {
+            if let Some(backoff) = this.backoff.as_mut() {
+                if matches!(backoff.as_mut().poll(ctx), Poll::Pending) {
+                    return Poll::Pending;
                 }
+                *this.backoff = None;
             }
-            Poll::Ready(Err(err)) => {
-                warn!("Accept error in RTR server {}: {}", this.addr, err);
-                *this.backoff = Some(Box::pin(
-                    tokio::time::sleep(Duration::from_millis(100))
-                ));
-                Poll::Pending
+            match this.tcp.poll_accept(ctx) {
+                Poll::Ready(Ok((sock, addr))) => {
+                    match RtrStream::new(
+                        sock, addr,
+                        this.tls.as_ref(), *this.keepalive,
+                        this.server_metrics,
+                    ) {
+                        Ok(stream) => return Poll::Ready(Some(Ok(stream))),
+                        Err(_) => continue,
+                    }
+                }
+                Poll::Ready(Err(err)) => {
+                    warn!(
+                        "Accept error in RTR server {}: {}", this.addr, err
+                    );
+                    *this.backoff = Some(Box::pin(
+                        tokio::time::sleep(Duration::from_millis(100))
+                    ));
+                }
+                Poll::Pending => return Poll::Pending,
             }
-            Poll::Pending => Poll::Pending,
         }
     }
 }
